@@ -530,7 +530,7 @@ func (in *Inst) deferredClauses(ds *deferSite, st *State, after bool) {
 	con := top.con
 	blk := in.e.curBlk
 	for i, ca := range con.Asserts {
-		if ca.Callee != name || ca.After != after || ca.Ordinal >= 0 {
+		if !calleeIs(&ds.instr.Call, ca.Callee) || ca.After != after || ca.Ordinal >= 0 {
 			continue
 		}
 		env := top.newEnv(st)
@@ -552,7 +552,7 @@ func (in *Inst) deferredClauses(ds *deferSite, st *State, after bool) {
 		o.Prop = ca.Clause.Prop
 	}
 	for _, gu := range con.Ghosts {
-		if gu.Callee != name || gu.Ordinal >= 0 || gu.Before == after {
+		if !calleeIs(&ds.instr.Call, gu.Callee) || gu.Ordinal >= 0 || gu.Before == after {
 			continue
 		}
 		env := top.newEnv(st)
@@ -997,7 +997,7 @@ func (in *Inst) callAssertsOf(con *Contract, inherited bool, x *ssa.Call, st *St
 		ord = -2 // clauses of the enclosing function under contract apply to inlined code only when they name no ordinal
 	}
 	for i, ca := range con.Asserts {
-		if ca.Callee != name || ca.After != after || (ca.Ordinal >= 0 && ca.Ordinal != ord) || in.e.W.otherProp(ca.Clause.Prop) {
+		if !calleeIs(&x.Call, ca.Callee) || ca.After != after || (ca.Ordinal >= 0 && ca.Ordinal != ord) || in.e.W.otherProp(ca.Clause.Prop) || (ca.Direct && inherited) {
 			continue
 		}
 		env := in.newEnv(st)
@@ -1032,7 +1032,7 @@ func (in *Inst) callAssertsOf(con *Contract, inherited bool, x *ssa.Call, st *St
 		o.Prop = ca.Clause.Prop
 	}
 	for _, gu := range con.Ghosts {
-		if gu.Callee != name || (gu.Ordinal >= 0 && gu.Ordinal != ord) || gu.Before == after {
+		if !calleeIs(&x.Call, gu.Callee) || (gu.Ordinal >= 0 && gu.Ordinal != ord) || gu.Before == after || (gu.Direct && inherited) {
 			continue
 		}
 		env := in.newEnv(st)
@@ -1098,6 +1098,34 @@ func (in *Inst) ghostAssign(gu GhostUpdate, env *SpecEnv, v Val, st *State) {
 	default:
 		e.fail("ghostset: unsupported left-hand side %s", gu.Name)
 	}
+}
+
+// calleeQName: Type.Method for method calls ("" otherwise); clauses may name a call either way.
+func calleeQName(c *ssa.CallCommon) string {
+	var t types.Type
+	var m string
+	if c.IsInvoke() {
+		t, m = c.Value.Type(), c.Method.Name()
+	} else if f := c.StaticCallee(); f != nil && f.Signature.Recv() != nil {
+		t, m = f.Signature.Recv().Type(), f.Name()
+	} else {
+		return ""
+	}
+	if p, ok := t.Underlying().(*types.Pointer); ok {
+		t = p.Elem()
+	}
+	if p, ok := t.(*types.Pointer); ok {
+		t = p.Elem()
+	}
+	if n, ok := t.(*types.Named); ok {
+		return n.Obj().Name() + "." + m
+	}
+	return ""
+}
+
+// calleeIs: does a clause's callee name (plain or Type.Method) denote this call?
+func calleeIs(c *ssa.CallCommon, clause string) bool {
+	return clause == calleeName(c) || (strings.Contains(clause, ".") && clause == calleeQName(c))
 }
 
 func calleeName(c *ssa.CallCommon) string {
@@ -1232,10 +1260,14 @@ func (w *World) abstractRelevant(fn *ssa.Function, top *Contract, depth int, see
 	names := map[string]bool{}
 	if top != nil {
 		for _, a := range top.Asserts {
-			names[a.Callee] = true
+			if !a.Direct {
+				names[a.Callee] = true
+			}
 		}
 		for _, g := range top.Ghosts {
-			names[g.Callee] = true
+			if !g.Direct {
+				names[g.Callee] = true
+			}
 		}
 	}
 	for _, b := range fn.Blocks {
@@ -1256,7 +1288,7 @@ func (w *World) abstractRelevant(fn *ssa.Function, top *Contract, depth int, see
 			default:
 				continue
 			}
-			if names[calleeName(c)] {
+			if names[calleeName(c)] || names[calleeQName(c)] {
 				return true
 			}
 			if c.IsInvoke() {
